@@ -13,6 +13,7 @@ import (
 	"encoding/pem"
 	"fmt"
 	"math/big"
+	"strings"
 	"sync"
 	"time"
 
@@ -63,7 +64,20 @@ func makeCertKeyed(cn string, serial *big.Int, variant string) testCert {
 		ExtKeyUsage:           []x509.ExtKeyUsage{x509.ExtKeyUsageClientAuth},
 		BasicConstraintsValid: true,
 	}
-	der, err := x509.CreateCertificate(rand.Reader, &tpl, &tpl, priv.Public(), priv)
+	parent, signer := &tpl, priv
+	if strings.HasPrefix(variant, "issuer:") {
+		// issued by another identity: the Issuer common name differs from the Subject's (legal x509; the chain never checks the chain of trust)
+		ca, err := ecdsa.GenerateKey(elliptic.P256(), rand.Reader)
+		if err != nil {
+			panic(err)
+		}
+		caTpl := tpl
+		caTpl.Subject = pkix.Name{CommonName: strings.TrimPrefix(variant, "issuer:")}
+		caTpl.IsCA = true
+		caTpl.KeyUsage |= x509.KeyUsageCertSign
+		parent, signer = &caTpl, ca
+	}
+	der, err := x509.CreateCertificate(rand.Reader, &tpl, parent, priv.Public(), signer)
 	if err != nil {
 		panic(err)
 	}
@@ -128,5 +142,15 @@ func aRevokeCertSpelled(owner string, spelling string) Action {
 	return Action{Name: fmt.Sprintf("RevokeCert(%s,serial=%q)", owner, spelling), Kind: "RevokeCertificate", Signer: owner, Tag: tag("owner", owner, "serial", ser.String()),
 		Msg: func(c *Cast) sdk.Msg {
 			return &ctypes.MsgRevokeCertificate{ID: ctypes.CertificateID{Owner: c.S(owner), Serial: spelling}}
+		}}
+}
+
+// aCreateCertIssued: msgOwner submits a certificate whose SUBJECT names cnOwner and whose ISSUER names issuer.
+func aCreateCertIssued(msgOwner, cnOwner, issuer string, serial *big.Int) Action {
+	return Action{Name: fmt.Sprintf("CreateCert(%s,cn=%s,issuer=%s,serial=%s)", msgOwner, cnOwner, issuer, serial), Kind: "CreateCertificate", Signer: msgOwner,
+		Tag: tag("owner", msgOwner, "cn", cnOwner, "serial", serial.String()),
+		Msg: func(c *Cast) sdk.Msg {
+			tc := makeCertKeyed(c.S(cnOwner), serial, "issuer:"+c.S(issuer))
+			return &ctypes.MsgCreateCertificate{Owner: c.S(msgOwner), Cert: tc.CertPEM, Pubkey: tc.PubPEM}
 		}}
 }
